@@ -223,15 +223,25 @@ func (e *ev) use(n *N) {
 	if ut == nil {
 		fail("used template not found: " + uname)
 	}
-	blocks := collectBlocks(ut)
+	defined := collectBlocks(ut)
+	blocks := map[string]*blockDef{}
+	aliased := map[string]bool{}
 	for _, pr := range n.Pairs {
-		b, ok := blocks[pr[0]]
+		aliased[pr[0]] = true
+	}
+	for name, b := range defined {
+		if !aliased[name] {
+			blocks[name] = b
+		}
+	}
+	for _, pr := range n.Pairs {
+		b, ok := defined[pr[0]]
 		if !ok {
 			fail("use: no block " + pr[0])
 		}
-		// the block is imported under its alias only
+		// the block is imported under its alias only (which may be its own
+		// name, or the name of another block that is given an alias too)
 		blocks[pr[1]] = b
-		delete(blocks, pr[0])
 	}
 	l := len(e.chain)
 	if l < 2 {
